@@ -1,4 +1,6 @@
 """C12: symmetric and KDF constructions match RFC 9580."""
+# the model is an independent transcription of the RFC: a disagreement is a failing input
+DISAGREEMENT_IS_FAILURE = True
 BIN = "c12"
 
 def expected(case, mout):
